@@ -2,6 +2,7 @@ package mon
 
 import (
 	"context"
+	"encoding/xml"
 	"errors"
 	"fmt"
 	"net/http"
@@ -167,7 +168,7 @@ func c09Requests(p *Program, t *T) []c09Req {
 }
 
 func runC09(e *Env) {
-	e.Rule = "registration programs (as C04) whose handlers are armed by request headers: the panicking request designates one handler (any global/group/route middleware, main handler, custom NotFound/NotAllowed handler; before or after its Next()) or the OnError handler, a panic value (string, error, int, struct) and an action before the panic (nothing, SetStatus, body write = committed, AddError); OnPanic hook absent / does nothing / status only / status+body / echoes the recovered value; history = healthy requests, the panicking one, an overlapping pair (a second request served by the same router while the first is parked inside a handler) and 3..10 further requests of all kinds on the same router (same pooled contexts). Oracle: hook present => no escape, hook ran once with the same value under CTXRecoverResult, no handler entered after the panic, writer log == C08 state machine over (ops before the panic, hook ops, end of request); hook absent => the same value propagates; always: every later request's outcome equals the outcome on a freshly built twin router. Also the in-chain recover middleware pkg/handlers.PanicsHandler: no escape, 500, healthy afterwards. Non-trivial: every history (each contains a panic); distinct by (program, plan). A third of the hooks serve another request on the same router before they answer (it must get its own context and behave as on a twin); a quarter of the panicking requests carry a cancelled or expired request context. More than half of the routers have an OnError handler that answers with an error page (after a panic it must not run, whatever errors were collected before). A quarter of the routers put a middleware in front that replaces c.Resp by a pass-through writer and restores it after Next() without defer (the panic skips the restore; the next request on that context must not notice). Part behind-request-logger: pkg/handlers.ConsoleLogger first and a panic on one of its ignored paths (/health, /status): the logger must not act as a recovery middleware. The hook keeps c.Data() and c.Copy() of the panicking request; after the history both still hold the recovered value."
+	e.Rule = "registration programs (as C04) whose handlers are armed by request headers: the panicking request designates one handler (any global/group/route middleware, main handler, custom NotFound/NotAllowed handler; before or after its Next()) or the OnError handler, a panic value (string, error, int, struct) and an action before the panic (nothing, SetStatus, body write = committed, AddError); OnPanic hook absent / does nothing / status only / status+body / echoes the recovered value; history = healthy requests, the panicking one, an overlapping pair (a second request served by the same router while the first is parked inside a handler) and 3..10 further requests of all kinds on the same router (same pooled contexts). Oracle: hook present => no escape, hook ran once with the same value under CTXRecoverResult, no handler entered after the panic, writer log == C08 state machine over (ops before the panic, hook ops, end of request); hook absent => the same value propagates; always: every later request's outcome equals the outcome on a freshly built twin router. Also the in-chain recover middleware pkg/handlers.PanicsHandler: no escape, 500, healthy afterwards. Non-trivial: every history (each contains a panic); distinct by (program, plan). A third of the hooks serve another request on the same router before they answer (it must get its own context and behave as on a twin); a quarter of the panicking requests carry a cancelled or expired request context. More than half of the routers have an OnError handler that answers with an error page (after a panic it must not run, whatever errors were collected before). A quarter of the routers put a middleware in front that replaces c.Resp by a pass-through writer and restores it after Next() without defer (the panic skips the restore; the next request on that context must not notice). Part behind-request-logger: pkg/handlers.ConsoleLogger first and a panic on one of its ignored paths (/health, /status): the logger must not act as a recovery middleware. Part panic-inside-a-render-helper: the value handed to c.JSON/JSONP/XML has an encoder that panics; the following responses of the same helper are unchanged. The hook keeps c.Data() and c.Copy() of the panicking request; after the history both still hold the recovered value."
 	e.Assumptions = []string{
 		"panic values are comparable (==)",
 		"the statement's 'no later handler runs' is checked for the OnPanic hook only; PanicsHandler lets the outer loop continue by design and is only checked for containment, status and router health",
@@ -176,6 +177,8 @@ func runC09(e *Env) {
 	e.RunCases("redispatch-panic", e.N(2000, 200000), 0, c09RedispatchPanic)
 	e.RunCases("behind-request-logger", e.N(300, 5000), 0, c09BehindLogger)
 	e.Require("logger.checked", 250)
+	e.RunCases("panic-inside-a-render-helper", e.N(300, 5000), 0, c09RenderPanic)
+	e.Require("render_panic.checked", 250)
 	e.Require("redispatch_panic.checked", 1000)
 	e.Require("panic.in_global_mw", 200)
 	e.Require("panic.in_route_mw", 200)
@@ -317,6 +320,76 @@ func c09BehindLogger(t *T) {
 			return
 		}
 	}
+}
+
+// c09Exploding is a value whose encoders panic (an application type with a broken MarshalJSON / MarshalXML).
+type c09Exploding struct{ V string }
+
+func (c09Exploding) MarshalJSON() ([]byte, error) {
+	panic("MarshalJSON of the application's type panics")
+}
+func (c09Exploding) MarshalXML(*xml.Encoder, xml.StartElement) error {
+	panic("MarshalXML of the application's type panics")
+}
+
+type c09Doc struct {
+	XMLName xml.Name `xml:"doc" json:"-"`
+	A       int      `xml:"a" json:"a"`
+	S       string   `xml:"s" json:"s"`
+}
+
+// c09RenderPanic: the panic happens inside a response helper (JSON, JSONP, XML) while it encodes the handler's
+// value. Hook or not, the requests that follow answer exactly as before the panic.
+func c09RenderPanic(t *T) {
+	r := t.R
+	helper := pick(r, []string{"JSONP", "XML", "JSON"})
+	hook := chance(r, 2, 3)
+	t.Describe(func() any { return map[string]any{"helper": helper, "OnPanic_hook": hook} })
+	t.AutoSample()
+	router := rux.New()
+	if hook {
+		router.OnPanic = func(c *rux.Context) {
+			recOf(c).Ev("hook")
+			c.SetStatus(500)
+		}
+	}
+	render := func(c *rux.Context, v any) {
+		switch helper {
+		case "JSONP":
+			c.JSONP(200, "cb", v)
+		case "XML":
+			c.XML(200, v)
+		default:
+			c.JSON(200, v)
+		}
+	}
+	router.GET("/bad", func(c *rux.Context) { recOf(c).Ev("enter(bad)"); render(c, c09Exploding{"x"}) })
+	router.GET("/good", func(c *rux.Context) { recOf(c).Ev("enter(good)"); render(c, c09Doc{A: 1, S: "<ok>"}) })
+	base, _, bp := Serve(router, NewReq("GET", "/good"))
+	if bp {
+		t.Fail("servehttp-panic", "%s of a plain value panicked", helper)
+		return
+	}
+	for round := 0; round < 3; round++ {
+		rec, pv, escaped := Serve(router, NewReq("GET", "/bad"))
+		if hook && (escaped || !hasEvent(rec.Events, "hook")) {
+			t.Fail("panic-escaped-with-hook", "a panic inside c.%s (the value's encoder panics): escaped=%v (%v), events %v", helper, escaped, pv, rec.Events)
+			return
+		}
+		if !hook && !escaped {
+			t.Fail("panic-swallowed-without-hook", "a panic inside c.%s, no OnPanic hook: it did not reach the caller of ServeHTTP", helper)
+			return
+		}
+		for i := 0; i < 2; i++ {
+			again, _, ap := Serve(router, NewReq("GET", "/good"))
+			t.Count("render_panic.checked", 1)
+			if ap || again.Outcome() != base.Outcome() {
+				t.Fail("followup-differs", "after a panic inside c.%s (round %d), GET /good answers differently than before the panic:\n before: %s\n after:  %s", helper, round, base.Outcome(), again.Outcome())
+				return
+			}
+		}
+	}
+	t.NonTrivial(fmt.Sprint(helper, hook))
 }
 
 // c09RedispatchPanic: the panicking chain was reached through an internal re-dispatch
